@@ -18,6 +18,7 @@ let channels : (string * ((string * string) list -> string)) list = [
   ("llpranks", Chan_llp.run_ranks);
   ("llpinv", Chan_llp.run_inv);
   ("llprun", Chan_llp.run_run);
+  ("ess", Chan_ess.run);
 ]
 
 let () =
